@@ -96,6 +96,11 @@ Proof.
   intros gm sc H. unfold linv, lstart; simpl. split; auto. split; auto. apply settled_repeat_nil.
 Qed.
 
+Section AnyExit.
+  (* the exit condition of destroy's wait loop: anything that lets a joined (fresh) barrier through at once *)
+  Variable chk : lstate -> bool.
+  Hypothesis chk_fresh : forall l, fresh (bar l) -> chk l = true.
+
 Lemma pstep_settled_none : forall l i, settled (epis l) (bar l) -> pstep l i = None.
 Proof.
   intros l i H. unfold pstep.
@@ -112,9 +117,9 @@ Proof. intros b n (-> & -> & ->). reflexivity. Qed.
 Lemma nthr_init : forall n, length (thrs (init n)) = n.
 Proof. intros. simpl. apply repeat_length. Qed.
 
-Lemma linv_cstep : forall l l', linv l -> cstep l = Some l' -> linv l'.
+Lemma linv_cstep : forall l l', linv l -> cstepG chk l = Some l' -> linv l'.
 Proof.
-  intros l l' (Hu & H) Hs. unfold cstep in Hs.
+  intros l l' (Hu & H) Hs. unfold cstepG in Hs.
   destruct l as [b m E al gm gs c sc u]; simpl in *. subst u.
   destruct c; try contradiction.
   - (* CNext *)
@@ -138,8 +143,8 @@ Proof.
            split; [apply inv_init|]. split; [exact Hmn|]. split; [|exact Hok].
            destruct gm; simpl in Hgg; auto.
         -- inversion Hs; subst l'. unfold linv; simpl. split; auto.
-        -- inversion Hs; subst l'. unfold linv, destroy_check, set_cp; simpl.
-           destruct Hfr as (_ & _ & Hb). rewrite Hb. simpl. split; auto. split; auto. split; auto.
+        -- inversion Hs; subst l'. unfold linv, destroy_checkG, set_cp; simpl.
+           match goal with |- context [chk ?x] => rewrite (chk_fresh x Hfr) end. simpl. split; auto. split; auto. split; auto.
            exists r. left. auto.
         -- inversion Hs; subst l'. unfold linv, create; simpl. split; auto. right.
            split; [intros j t Hj; apply (Hset j t Hj)|]. split; [repeat split|]. exact Hok.
@@ -149,8 +154,8 @@ Proof.
               split; [intros j t Hj; apply (Hset j t Hj)|]. split; [repeat split|]. exact Hok.
         -- inversion Hs; subst l'. unfold linv; simpl. split; auto.
         -- destruct gs.
-           ++ inversion Hs; subst l'. unfold linv, destroy_check, set_cp; simpl.
-              destruct Hfr as (_ & _ & Hb). rewrite Hb. simpl. split; auto. split; auto. split; auto.
+           ++ inversion Hs; subst l'. unfold linv, destroy_checkG, set_cp; simpl.
+              match goal with |- context [chk ?x] => rewrite (chk_fresh x Hfr) end. simpl. split; auto. split; auto. split; auto.
               exists r. right. auto.
            ++ inversion Hs; subst l'. unfold linv, set_script; simpl. split; auto.
     + destruct H as (Hset & Hok).
@@ -206,18 +211,24 @@ Proof.
   - destruct H as (_ & Hset & _). exfalso; auto.
 Qed.
 
-Lemma linv_lstep : forall l i l', linv l -> lstep l i = Some l' -> linv l'.
+Lemma linv_lstep : forall l i l', linv l -> lstepG chk l i = Some l' -> linv l'.
 Proof.
-  intros l i l' H Hs. unfold lstep in Hs.
+  intros l i l' H Hs. unfold lstepG in Hs.
   destruct (i <? nthr l); [eapply linv_pstep; eauto|].
   destruct (i =? nthr l); [eapply linv_cstep; eauto|discriminate].
 Qed.
 
-Lemma linv_lexec : forall sched l, linv l -> linv (lexec l sched).
+Lemma linv_lexec : forall sched l, linv l -> linv (lexecG chk l sched).
 Proof.
   induction sched as [|i r IH]; intros l H; simpl; auto. apply IH.
-  unfold lstep_or_stay. destruct (lstep l i) eqn:Hs; auto. eapply linv_lstep; eauto.
+  unfold lstepG_or_stay. destruct (lstepG chk l i) eqn:Hs; auto. eapply linv_lstep; eauto.
 Qed.
+End AnyExit.
+
+Lemma chk_code_fresh : forall l, fresh (bar l) -> chk_code l = true.
+Proof. intros l (_ & _ & Hb). unfold chk_code. rewrite Hb. reflexivity. Qed.
+Lemma chk_fixed_fresh : forall l, fresh (bar l) -> chk_fixed l = true.
+Proof. intros l (Hi & _ & Hb). unfold chk_fixed. rewrite Hb, Hi. reflexivity. Qed.
 
 (* what the invariant gives *)
 Lemma linv_safe : forall l, linv l ->
@@ -254,15 +265,25 @@ Lemma life_contract_safe_lemma : forall (gm : bool) (sc : list lop) (sched : lis
     (forall i j ti tj, nth_error (thrs (bar l)) i = Some ti -> nth_error (thrs (bar l)) j = Some tj ->
                        t_ep ti <= t_pas ti /\ t_pas ti <= t_arr tj /\ t_arr tj <= calls tj) /\
     (alive l = true -> cp l = CNext -> in_full (bar l) && out_full (bar l) = false /\ (0 <= blockers (bar l))%Z).
-Proof. intros gm sc sched H l. apply linv_safe. apply linv_lexec. apply linv_start. exact H. Qed.
+Proof. intros gm sc sched H l. apply linv_safe. apply (linv_lexec chk_code chk_code_fresh). apply linv_start. exact H. Qed.
+
+(* the same for the machine with the repaired wait loop: the repair changes nothing inside the contract *)
+Lemma life_contract_safe_fixed_lemma : forall (gm : bool) (sc : list lop) (sched : list nat),
+    okscript gm MD false 0%Z sc = true ->
+    let l := lexecG chk_fixed (lstart gm sc) sched in
+    uaf l = 0 /\
+    (forall i j ti tj, nth_error (thrs (bar l)) i = Some ti -> nth_error (thrs (bar l)) j = Some tj ->
+                       t_ep ti <= t_pas ti /\ t_pas ti <= t_arr tj /\ t_arr tj <= calls tj) /\
+    (alive l = true -> cp l = CNext -> in_full (bar l) && out_full (bar l) = false /\ (0 <= blockers (bar l))%Z).
+Proof. intros gm sc sched H l. apply linv_safe. apply (linv_lexec chk_fixed chk_fixed_fresh). apply linv_start. exact H. Qed.
 
 (* ------------------------------------------------------------------ progress inside the contract *)
 Lemma lstep_ctl : forall l, lstep l (nthr l) = cstep l.
-Proof. intros l. unfold lstep. rewrite Nat.ltb_irrefl, Nat.eqb_refl. reflexivity. Qed.
+Proof. intros l. unfold lstep, lstepG. rewrite Nat.ltb_irrefl, Nat.eqb_refl. reflexivity. Qed.
 
 Lemma cstep_quiet_enabled : forall l, cp l = CNext -> all_done (epis l) (bar l) = true -> script l <> [] -> cstep l <> None.
 Proof.
-  intros l Hc Hd Hs. unfold cstep. rewrite Hc, Hd.
+  intros l Hc Hd Hs. unfold cstep, cstepG. rewrite Hc, Hd.
   destruct (script l) as [|o r]; [congruence|].
   destruct o; try discriminate; destruct (gset l); discriminate.
 Qed.
@@ -277,7 +298,7 @@ Proof.
     { intros He. unfold lfinished in Hf. rewrite He, Hc, Hd in Hf. discriminate. }
     pose proof (cstep_quiet_enabled l Hc Hd Hne). destruct (cstep l); congruence. }
   assert (Hd3 : (cp l = CFillOut \/ cp l = CFillIn \/ cp l = CFree) -> exists i, lenabled l i = true).
-  { intros Hc. exists (nthr l). unfold lenabled. rewrite lstep_ctl. unfold cstep.
+  { intros Hc. exists (nthr l). unfold lenabled. rewrite lstep_ctl. unfold cstep, cstepG.
     destruct Hc as [-> | [-> | ->]]; reflexivity. }
   destruct (cp l) eqn:Hc; try contradiction; auto.
   destruct (alive l) eqn:Hal.
@@ -293,7 +314,7 @@ Proof.
       assert (Hi : i < nthr l).
       { unfold step in Hst. destruct (nth_error (thrs (bar l)) i) eqn:Hn; [|discriminate].
         unfold nthr. apply nth_error_Some. congruence. }
-      unfold lenabled, lstep. apply Nat.ltb_lt in Hi. rewrite Hi. unfold pstep.
+      unfold lenabled, lstep, lstepG. apply Nat.ltb_lt in Hi. rewrite Hi. unfold pstep.
       destruct (nth_error (thrs (bar l)) i) as [t|] eqn:Hn.
       * assert (Hnull : (gmode l && negb (gset l) && is_call t)%bool = false).
         { destruct Hg as [-> | ->]; simpl; auto. rewrite andb_false_r. auto. }
@@ -306,7 +327,7 @@ Lemma life_no_deadlock_lemma : forall (gm : bool) (sc : list lop) (sched : list 
     okscript gm MD false 0%Z sc = true ->
     let l := lexec (lstart gm sc) sched in
     lfinished l = false -> exists i, lenabled l i = true.
-Proof. intros gm sc sched H l. apply linv_no_deadlock. apply linv_lexec. apply linv_start. exact H. Qed.
+Proof. intros gm sc sched H l. apply linv_no_deadlock. apply (linv_lexec chk_code chk_code_fresh). apply linv_start. exact H. Qed.
 
 (* ------------------------------------------------------------------ resize at a joined point, then a group as large as the new count *)
 Lemma resize_then_correct_lemma : forall (n E : nat) (sched : list nat) (n' E' : nat) (sched' : list nat),
@@ -322,7 +343,7 @@ Lemma resize_then_correct_lemma : forall (n E : nat) (sched : list nat) (n' E' :
 Proof.
   intros n E sched n' E' sched' b Hd l.
   pose proof (quiescent_fresh n E b (inv_reachable n E sched) Hd) as Hfr.
-  eexists. eexists. split; [reflexivity|]. split; [unfold cstep; simpl; rewrite Hd; reflexivity|].
+  eexists. eexists. split; [reflexivity|]. split; [unfold cstep, cstepG; simpl; rewrite Hd; reflexivity|].
   simpl. rewrite (settled_fresh_era_is_init _ _ Hfr).
   split; [reflexivity|]. split; [reflexivity|]. split; [reflexivity|]. split.
   - intros i j ti tj. apply barrier_safe_lemma.
@@ -403,9 +424,9 @@ Proof.
     cbv [b2n] in Hc; cbn [inside isOutWait t_pc setpc pass_out finish rel_out rel_in] in Hc |- *. lia.
 Qed.
 
-Lemma cntinv_lstep : forall l i l', cntinv (bar l) -> lstep l i = Some l' -> cntinv (bar l').
+Lemma cntinv_lstep : forall chk l i l', cntinv (bar l) -> lstepG chk l i = Some l' -> cntinv (bar l').
 Proof.
-  intros l i l' H Hs. unfold lstep in Hs.
+  intros chk l i l' H Hs. unfold lstepG in Hs.
   destruct (i <? nthr l).
   - unfold pstep in Hs. destruct (nth_error (thrs (bar l)) i) as [t|] eqn:Hi; [|discriminate].
     destruct (gmode l && negb (gset l) && is_call t)%bool eqn:Hnull.
@@ -418,27 +439,27 @@ Proof.
     + destruct (step (maxb l) (epis l) (bar l) i) as [b'|] eqn:Hst; [|discriminate].
       inversion Hs; subst l'; simpl. eapply cntinv_step; eauto.
   - destruct (i =? nthr l); [|discriminate].
-    unfold cstep in Hs.
+    unfold cstepG in Hs.
     assert (Hz : all_done (epis l) (bar l) = true -> blockers (bar l) = 0%Z).
     { intros Hd. unfold cntinv in H. rewrite H, (cnt_all_call _ _ Hd). reflexivity. }
     destruct (cp l).
     + destruct (script l) as [|o r]; [discriminate|].
       destruct o;
         repeat match type of Hs with context [if ?c then _ else _] => destruct c eqn:? end;
-        try discriminate; inversion Hs; subst l'; unfold cntinv, destroy_check, set_cp, set_script, create; simpl; auto.
+        try discriminate; inversion Hs; subst l'; unfold cntinv, destroy_checkG, set_cp, set_script, create; simpl; auto.
       * rewrite cnt_repeat_thr0. auto.
       * erewrite cnt_all_call; eauto.
       * erewrite cnt_all_call; eauto.
-    + inversion Hs; subst l'. unfold destroy_check, set_cp; simpl. auto.
+    + inversion Hs; subst l'. unfold destroy_checkG, set_cp; simpl. auto.
     + inversion Hs; subst l'; unfold cntinv in *; simpl. rewrite (cnt_map_same inside rel_out _ inside_rel_out). auto.
     + inversion Hs; subst l'; unfold cntinv in *; simpl. rewrite (cnt_map_same inside rel_in _ inside_rel_in). auto.
     + inversion Hs; subst l'; simpl. auto.
 Qed.
 
-Lemma cntinv_lexec : forall sched l, cntinv (bar l) -> cntinv (bar (lexec l sched)).
+Lemma cntinv_lexec : forall chk sched l, cntinv (bar l) -> cntinv (bar (lexecG chk l sched)).
 Proof.
   induction sched as [|i r IH]; intros l H; simpl; auto. apply IH.
-  unfold lstep_or_stay. destruct (lstep l i) eqn:Hs; auto. eapply cntinv_lstep; eauto.
+  unfold lstepG_or_stay. destruct (lstepG chk l i) eqn:Hs; auto. eapply cntinv_lstep; eauto.
 Qed.
 
 Lemma blockers_counts_inside_lemma : forall (gm : bool) (sc : list lop) (sched : list nat),
@@ -457,11 +478,11 @@ Proof.
   pose proof (blockers_counts_inside_lemma gm sc sched) as Hcnt. fold l in Hcnt.
   assert (Hchk : l' = destroy_check l -> bar l' = bar l /\ blockers (bar l') = 0%Z /\
                                           forall j t, nth_error (thrs (bar l')) j = Some t -> inside t = false).
-  { intros ->. unfold destroy_check, set_cp in *; simpl in *.
+  { intros ->. unfold destroy_check, destroy_checkG, chk_code, set_cp in *; simpl in *.
     destruct (blockers (bar l) =? 0)%Z eqn:Hb; [|discriminate]. apply Z.eqb_eq in Hb.
     split; auto. split; auto. intros j t Hj. rewrite Hb in Hcnt.
     apply (cnt_zero_all inside (thrs (bar l)) j t); auto. lia. }
-  unfold cstep in Hs. destruct (cp l) eqn:Hcp.
+  unfold cstep, cstepG in Hs. fold destroy_check in Hs. destruct (cp l) eqn:Hcp.
   - destruct (script l) as [|o r]; [discriminate|].
     destruct o;
       repeat match type of Hs with context [if ?c then _ else _] => destruct c eqn:? end;
@@ -581,7 +602,7 @@ Lemma global_init_twice_ignored_lemma : forall (l l' : lstate) (m : Z) (r : list
     cp l = CNext -> script l = LGInit m :: r -> gset l = true -> cstep l = Some l' ->
     bar l' = bar l /\ maxb l' = maxb l /\ alive l' = alive l /\ gset l' = true /\ script l' = r.
 Proof.
-  intros l l' m r Hc Hs Hg H. unfold cstep in H. rewrite Hc, Hs, Hg in H. inversion H; subst l'. simpl. auto.
+  intros l l' m r Hc Hs Hg H. unfold cstep, cstepG in H. rewrite Hc, Hs, Hg in H. inversion H; subst l'. simpl. auto.
 Qed.
 
 (* qt_global_barrier() before qt_global_barrier_init (or after the destroy): enter(NULL) returns at once *)
@@ -610,4 +631,151 @@ Proof. vm_compute. auto. Qed.
 
 Example fewer_blocks_all :
   let s := exec 3 1 (init 2) [0;0;0;0;1;1;1;1;0;1] in enabled_list 3 1 s = [] /\ all_done 1 s = false.
+Proof. vm_compute. auto. Qed.
+
+(* ------------------------------------------------------------------ the repaired wait loop (chk_fixed): destroy may be called as soon
+   as every participant has ARRIVED for its last episode (the usual pattern: a participant returns from its last enter and
+   destroys the barrier) -- nobody touches the freed object *)
+Definition last_arrived (l : lstate) : Prop := forall j t, nth_error (thrs (bar l)) j = Some t -> t_arr t = epis l.
+
+Definition pend (l : lstate) : Prop :=
+  uaf l = 0 /\ alive l = true /\ inv (nthr l) (epis l) (bar l) /\ maxb l = Z.of_nat (nthr l) /\
+  (gmode l = false \/ gset l = true) /\ last_arrived l /\
+  (cp l = CNext \/ cp l = CYield) /\
+  exists r, (script l = LDestroy :: r /\ okscript (gmode l) MD (gset l) (maxb l) r = true) \/
+            (script l = LGDestroy :: r /\ gset l = true /\ okscript (gmode l) MD false (maxb l) r = true).
+
+Lemma rel_out_arr : forall t, t_arr (rel_out t) = t_arr t.
+Proof. intros [p e a q]. destruct p; reflexivity. Qed.
+Lemma rel_in_arr : forall t, t_arr (rel_in t) = t_arr t.
+Proof. intros [p e a q]. destruct p; reflexivity. Qed.
+
+Lemma step_keeps_last : forall n E b i b',
+    inv n E b -> (forall j t, nth_error (thrs b) j = Some t -> t_arr t = E) ->
+    step (Z.of_nat n) E b i = Some b' ->
+    forall j t, nth_error (thrs b') j = Some t -> t_arr t = E.
+Proof.
+  intros n E b i b' (Hlen & Hwf & _) Hall Hs. unfold step in Hs.
+  destruct (nth_error (thrs b) i) as [t|] eqn:Hi; [|discriminate].
+  pose proof (Hall _ _ Hi) as Ha. destruct (Hwf _ _ Hi) as (Hwa & _ & _ & Hlt).
+  destruct b as [fi fo bl l]; simpl in *. destruct t as [p e a q]; simpl in *.
+  change (allT (fun t => t_arr t = E) (thrs b')).
+  destruct p; simpl in Hs; try discriminate.
+  - destruct (e <? E); [|discriminate]. inversion Hs; subst b'; simpl. apply allT_upd; [exact Hall|]. exact Ha.
+  - inversion Hs; subst b'; simpl. apply allT_upd; [exact Hall|]. exact Ha.
+  - exfalso. simpl in Hwa. assert (e < E) by (apply Hlt; discriminate). lia.
+  - inversion Hs; subst b'; simpl. apply allT_upd; [exact Hall|]. exact Ha.
+  - inversion Hs; subst b'; simpl. apply allT_upd_map; [|exact Ha].
+    intros j u _ Hj. rewrite rel_out_arr. exact (Hall _ _ Hj).
+  - inversion Hs; subst b'; simpl. apply allT_upd; [exact Hall|]. destruct fo; exact Ha.
+  - inversion Hs; subst b'; simpl. apply allT_upd; [exact Hall|]. destruct (bl - 1 =? 0)%Z; exact Ha.
+  - inversion Hs; subst b'; simpl. apply allT_upd; [exact Hall|]. exact Ha.
+  - inversion Hs; subst b'; simpl. apply allT_upd_map; [|exact Ha].
+    intros j u _ Hj. rewrite rel_in_arr. exact (Hall _ _ Hj).
+Qed.
+
+(* blockers = 0 and the in gate full with everybody arrived for the last episode: everybody has returned *)
+Lemma fixed_pass_settled : forall n E b,
+    inv n E b -> blockers b = 0%Z -> in_full b = true ->
+    (forall j t, nth_error (thrs b) j = Some t -> t_arr t = E) -> settled E b.
+Proof.
+  intros n E b (Hlen & Hwf & ph & g & Htok & Hgl) Hb Hin Hall j t Hj.
+  destruct (Hwf _ _ Hj) as (Hwa & Hwq & HeE & Hlt). pose proof (Hall _ _ Hj) as Ha. pose proof (Htok _ _ Hj) as Ht.
+  assert (Hp : t_pc t = PCall).
+  { destruct ph; simpl in Hgl; destruct Hgl as (Hi' & Ho' & Hb' & Hx); try congruence.
+    - (* F *)
+      assert (Hz : cnt isOutWait (thrs b) = 0) by lia.
+      pose proof (cnt_zero_all isOutWait _ _ _ Hz Hj) as Hw.
+      unfold tok in Ht. unfold isOutWait in Hw.
+      destruct (t_pc t) eqn:Hpc; try contradiction; try discriminate; auto;
+        exfalso; simpl in Hwa; assert (t_ep t < E) by (apply Hlt; discriminate); lia.
+    - (* C1: blockers = n = 0, no participants *)
+      exfalso. assert (n = 0) by lia. subst n.
+      assert (j < length (thrs b)) by (apply nth_error_Some; congruence). lia. }
+  rewrite Hp in Hwa, Hwq. simpl in Hwa, Hwq. repeat split; auto; lia.
+Qed.
+
+Lemma pend_step : forall l i l', pend l -> lstepG chk_fixed l i = Some l' -> pend l' \/ linv l'.
+Proof.
+  intros l i l' (Hu & Hal & Hinv & Hm & Hg & Hla & Hcp & r & Hsc) Hs. unfold lstepG in Hs.
+  destruct (i <? nthr l).
+  - (* a participant *)
+    left. unfold pstep in Hs.
+    destruct (nth_error (thrs (bar l)) i) as [t|] eqn:Hi; [|discriminate].
+    assert (Hnull : (gmode l && negb (gset l) && is_call t)%bool = false).
+    { destruct Hg as [-> | ->]; simpl; auto. rewrite andb_false_r. auto. }
+    rewrite Hnull in Hs.
+    destruct (step (maxb l) (epis l) (bar l) i) as [b'|] eqn:Hst; [|discriminate].
+    inversion Hs; subst l'; clear Hs. rewrite Hm in Hst.
+    pose proof (inv_step _ _ _ _ _ Hinv Hst) as Hinv'.
+    assert (Hlen : length (thrs b') = nthr l) by (destruct Hinv' as (Hl & _); exact Hl).
+    unfold pend, nthr, last_arrived; simpl. unfold nthr in *. rewrite Hlen, Hal. simpl.
+    split; [lia|]. split; [auto|]. split; [exact Hinv'|]. split; [exact Hm|]. split; [exact Hg|].
+    split; [exact (step_keeps_last _ _ _ _ _ Hinv Hla Hst)|]. split; [exact Hcp|]. exists r. exact Hsc.
+  - destruct (i =? nthr l); [|discriminate].
+    assert (Hchk : l' = destroy_checkG chk_fixed l -> pend l' \/ linv l').
+    { intros ->. unfold destroy_checkG. destruct (chk_fixed l) eqn:Hc.
+      - right. unfold chk_fixed in Hc. apply andb_prop in Hc. destruct Hc as (Hb & Hin). apply Z.eqb_eq in Hb.
+        pose proof (fixed_pass_settled _ _ _ Hinv Hb Hin Hla) as Hset.
+        unfold linv, set_cp; simpl. split; auto. split; auto. split; auto.
+        exists r. destruct Hsc as [(Hs1 & Hok) | (Hs1 & Hgs & Hok)]; [left|right]; auto.
+      - left. unfold pend, set_cp, nthr, last_arrived; simpl.
+        split; auto. split; auto. split; auto. split; auto. split; auto. split; auto. split; auto. exists r. exact Hsc. }
+    unfold cstepG in Hs.
+    destruct Hcp as [Hcp | Hcp]; rewrite Hcp in Hs.
+    + destruct Hsc as [(Hs1 & Hok) | (Hs1 & Hgs & Hok)]; rewrite Hs1 in Hs.
+      * injection Hs as H0. apply Hchk. auto.
+      * rewrite Hgs in Hs. injection Hs as H0. apply Hchk. auto.
+    + injection Hs as H0. apply Hchk. auto.
+Qed.
+
+Lemma pend_exec : forall sched l, pend l \/ linv l -> pend (lexecG chk_fixed l sched) \/ linv (lexecG chk_fixed l sched).
+Proof.
+  induction sched as [|i r IH]; intros l H; simpl; auto. apply IH.
+  unfold lstepG_or_stay. destruct (lstepG chk_fixed l i) eqn:Hs; auto.
+  destruct H as [H | H]; [eapply pend_step; eauto|right; eapply (linv_lstep chk_fixed chk_fixed_fresh); eauto].
+Qed.
+
+Lemma destroy_fixed_waits_for_leavers_lemma : forall (l : lstate) (sched : list nat),
+    pend l ->
+    let l' := lexecG chk_fixed l sched in
+    uaf l' = 0 /\ (alive l' = false -> settled (epis l') (bar l')) /\
+    (forall i j ti tj, nth_error (thrs (bar l')) i = Some ti -> nth_error (thrs (bar l')) j = Some tj ->
+                       t_ep ti <= t_pas ti /\ t_pas ti <= t_arr tj /\ t_arr tj <= calls tj).
+Proof.
+  intros l sched H l'. destruct (pend_exec sched l (or_introl H)) as [Hp | Hl]; fold l' in Hp || fold l' in Hl.
+  - destruct Hp as (Hu & Hal & Hinv & _). split; auto. split; [congruence|].
+    intros i j ti tj. exact (inv_safe _ _ _ Hinv i j ti tj).
+  - pose proof (linv_safe _ Hl) as (Hu & Hs & _). split; auto. split; auto.
+    intros Hal. destruct Hl as (_ & Hl). destruct (cp l'); try contradiction; rewrite ?Hal in Hl.
+    + destruct Hl as (Hset & _); exact Hset.
+    + destruct Hl as (Hal' & _). congruence.
+    + destruct Hl as (Hal' & _). congruence.
+    + destruct Hl as (Hal' & _). congruence.
+Qed.
+
+(* once everybody has returned the repaired loop exits: destroy terminates *)
+Lemma destroy_fixed_exits_lemma : forall l, pend l -> all_done (epis l) (bar l) = true -> chk_fixed l = true.
+Proof.
+  intros l (_ & _ & Hinv & _) Hd. apply chk_fixed_fresh. eapply quiescent_fresh; eauto.
+Qed.
+
+(* non-vacuity: the state of the race witness (participant 0 returned, participant 1 = last leaver before its gate
+   operations, destroy about to be called) satisfies the guard; the repaired loop makes the destroyer yield there *)
+Example pend_race_state : pend (lexec (lstart false race_script) (firstn 13 race_sched)).
+Proof.
+  set (l := lexec (lstart false race_script) (firstn 13 race_sched)).
+  assert (Hb : bar l = exec (Z.of_nat 2) 1 (init 2) [0;0;0;0;1;1;1;1;1;0;1]) by (vm_compute; reflexivity).
+  assert (Hn : nthr l = 2) by (vm_compute; reflexivity).
+  unfold pend, last_arrived. rewrite Hn, Hb.
+  split; [vm_compute; reflexivity|]. split; [vm_compute; reflexivity|]. split; [apply inv_reachable|].
+  split; [vm_compute; reflexivity|]. split; [left; vm_compute; reflexivity|].
+  split.
+  - intros j t Hj. vm_compute in Hj. destruct j as [|[|[|j]]]; inversion Hj; reflexivity.
+  - split; [left; vm_compute; reflexivity|]. exists []. left. split; vm_compute; reflexivity.
+Qed.
+
+Example fixed_race_run :
+  let l := lexecG chk_fixed (lstart false race_script) (race_sched ++ [2;2;2;2]) in
+  uaf l = 0 /\ alive l = false /\ lfinished l = true.
 Proof. vm_compute. auto. Qed.
